@@ -2,7 +2,7 @@
 mosaik.set_data during their steps (async guard, set_data inputs, refusal)."""
 from .. import common, sched_check, monitors, gen
 
-KINDS = {'guard_async', 'inputs', 'model_err:asyncrefused', 'impl_err:async'}
+KINDS = {'guard_async', 'guard_input_async', 'inputs', 'model_err:asyncrefused', 'impl_err:async'}
 
 
 def nontrivial(case, run, val):
@@ -17,6 +17,16 @@ def features(case, run, val):
 
 def case_gen(rng, k):
     case = gen.gen_case(rng, groups=(k % 3 == 0), asyncs=True, clean=1.0, maxn=4)
+    if k % 4 == 1:
+        # the connection that carries async_requests is itself time-shifted / weak, or the pair has an earlier delayed
+        # connection: the input delay of the pair must still be the (zero) delay of the async-requests relation
+        for e in [e for e in case['edges'] if e.get('async')]:
+            same_src = [f for f in case['edges'] if f['a'] == e['a'] and f['sa'] == e['sa']]
+            if len(same_src) != 1: continue
+            in_group = bool(case['grp'][e['a']]) and bool(case['grp'][e['b']]) and case['grp'][e['a']][0] == case['grp'][e['b']][0]
+            kind = rng.choice(['ts', 'ts', 'w'] if in_group else ['ts'])
+            if e['sa'] in ('eo', 'e2') and e['da'] == 'i': continue       # would need initial data on an event source
+            e.update(kind=kind, shift=rng.choice([1, 1, 2]) if kind == 'ts' else 0, init=bool(e['da'] == 'i'))
     if k % 7 == 6 and case['n'] >= 2 and not any(e.get('async') and e['a'] == 0 and e['b'] == 1 for e in case['edges']):
         # a set_data towards a simulator without async_requests connection must be refused
         case['beh'][1].setdefault('set_data', {})['0,0'] = [['S0', 'i', 'setX@0']]
